@@ -87,6 +87,7 @@ pub(crate) struct VerifiableEncryptionDecryptableBuilder {
     pub(crate) message_bytes: [u8; 32],
     pub(crate) byte_blinders: [Scalar; 32],
     pub(crate) blinder_blinders: [Scalar; 32],
+    pub(crate) byte_nonces: [Scalar; 32],
     pub(crate) byte_ciphertext: Ciphertext,
 }
 
@@ -102,6 +103,7 @@ impl VerifiableEncryptionDecryptableBuilder {
         let mut byte_ciphertext = Ciphertext::default();
         let mut byte_blinders = [Scalar::ZERO; 32];
         let mut blinder_blinders = [Scalar::ZERO; 32];
+        let mut byte_nonces = [Scalar::ZERO; 32];
 
         let shift = Scalar::from(256u16);
         let mut sum = Scalar::ZERO;
@@ -136,8 +138,11 @@ impl VerifiableEncryptionDecryptableBuilder {
                 b"byte_proof_c2",
                 byte_ciphertext.c2[i].to_compressed().as_slice(),
             );
+            // the Schnorr nonce of the byte must not be the byte ciphertext's randomness:
+            // its response would reveal the byte (response * G - c1 = c * byte * G)
+            byte_nonces[i] = Scalar::random(&mut rng);
             let inner_r1 = G1Projective::GENERATOR * blinder_blinders[i];
-            let inner_r2 = statement.message_generator * byte_blinders[i]
+            let inner_r2 = statement.message_generator * byte_nonces[i]
                 + statement.encryption_key.0 * blinder_blinders[i];
 
             transcript.append_message(b"byte_proof_r1", inner_r1.to_compressed().as_slice());
@@ -147,6 +152,7 @@ impl VerifiableEncryptionDecryptableBuilder {
             message_bytes,
             byte_blinders,
             blinder_blinders,
+            byte_nonces,
             byte_ciphertext,
         }
     }
@@ -179,14 +185,10 @@ impl VerifiableEncryptionDecryptableBuilder {
         )
         .expect("range proof to work");
         let mut byte_proofs = [ByteProof::default(); 32];
-        for ((byte_proof, byte_blinder), (message_byte, blinder_blinder)) in byte_proofs
-            .iter_mut()
-            .zip(self.byte_blinders.iter())
-            .zip(self.message_bytes.iter().zip(self.blinder_blinders.iter()))
-        {
+        for (i, byte_proof) in byte_proofs.iter_mut().enumerate() {
             *byte_proof = ByteProof {
-                message: byte_blinder + challenge * Scalar::from(*message_byte),
-                blinder: blinder_blinder + challenge * byte_blinder,
+                message: self.byte_nonces[i] + challenge * Scalar::from(self.message_bytes[i]),
+                blinder: self.blinder_blinders[i] + challenge * self.byte_blinders[i],
             };
         }
         DecryptableScalarProof {
